@@ -567,3 +567,14 @@ M('c07-wsgi-next-direct-readline-limited-by-constant', 'C07', 'R1', W, _NEXT_LIN
 M('c07-wsgi-next-direct-readline-limit-through-local', 'C07', 'R1', W, _NEXT_LINE,
   "        limit = max(self.stream_len, 1)\n        line = self.stream.readline(limit)\n        if not line:\n"
   "            raise StopIteration\n\n        self._bytes_remaining -= len(line)\n        return line\n")
+
+# ------------------------------------------------------------------ wave 10
+# R4 'buffer at yield' (s10-c07-1): a chunk served from the receive buffer has left the buffer when it is yielded
+_BUFFERED = ("            next_chunk = self._buffer\n            self._buffer = b''\n\n"
+             "            self._pos += len(next_chunk)\n            yield next_chunk\n")
+M('c07-asgi-iter-yields-buffer-and-clears-it-after-the-yield', 'C07', 'R4', 'falcon/asgi/stream.py', _BUFFERED,
+  "            self._pos += len(self._buffer)\n            yield self._buffer\n            self._buffer = b''\n")
+M('c07-asgi-iter-clears-buffer-after-yielding-the-local', 'C07', 'R4', 'falcon/asgi/stream.py', _BUFFERED,
+  "            next_chunk = self._buffer\n\n            self._pos += len(next_chunk)\n            yield next_chunk\n            self._buffer = b''\n")
+M('c07-asgi-iter-yields-copy-of-buffer-and-clears-it-after-the-yield', 'C07', 'R4', 'falcon/asgi/stream.py', _BUFFERED,
+  "            self._pos += len(self._buffer)\n            yield self._buffer[:]\n            self._buffer = b''\n")
